@@ -2,5 +2,6 @@ CONSTANTS
   Depth = 2
   AllVias = TRUE
   Prune = TRUE
+  PruneLast = TRUE
 SPECIFICATION Spec
 INVARIANT Emit
